@@ -40,7 +40,7 @@ def enc_name_ver(name, v):
 def digest(toks):
     h = 17
     for x in toks:
-        h = (h * 1000003 + x + 7) % 2147483647
+        h = (h * 31 + x + 7) & 1073741823
     return h
 
 
